@@ -2,7 +2,6 @@ package swamp
 
 import (
 	"errors"
-	"github.com/hydraide/hydraide/app/verifhook"
 	"time"
 
 	"github.com/hydraide/hydraide/app/core/hydra/swamp/treasure"
